@@ -34,4 +34,6 @@ MUTANTS = [
     {"id": "c19-twin-hash-astype", "prop": "C19", "rule": None, "twin": True, "edits": [{"file": "utils.py", "old": "    canonical = np.ascontiguousarray(array, np.result_type(array, np.float64)) + 0.0", "new": "    canonical = np.ascontiguousarray(array, dtype=np.result_type(array, np.float64))\n    canonical = canonical + 0.0"}]},
     m("c19-make-triangular-in-place-mask", "R1", "    return np.tril(array) if lower else np.triu(array)", "    rows, cols = np.indices(array.shape)\n    array[(cols > rows) if lower else (cols < rows)] = 0\n    return array"),
     m("c19-twin-make-triangular-where", None, "    return np.tril(array) if lower else np.triu(array)", "    rows, cols = np.indices(array.shape)\n    return np.where((cols <= rows) if lower else (cols >= rows), array, 0)", twin=True),
+    {'id': 'c19-array-hook-alias-through-local', 'prop': 'C19', 'rule': 'R7', 'edits': [{'file': 'matrices.py', 'old': '    def __array__(self) -> NDArray:\n        return self.array\n', 'new': '    def __array__(self, dtype=None, copy=None) -> NDArray:\n        arr = self.array\n        return arr\n'}]},
+    {'id': 'c19-twin-array-hook-honours-copy', 'prop': 'C19', 'rule': None, 'edits': [{'file': 'matrices.py', 'old': '    def __array__(self) -> NDArray:\n        return self.array\n', 'new': '    def __array__(self, dtype=None, copy=None) -> NDArray:\n        if dtype is not None and dtype != self.array.dtype:\n            return self.array.astype(dtype)\n        if copy:\n            return self.array.copy()\n        return self.array\n'}], 'twin': True},
 ]
